@@ -758,7 +758,8 @@ def graph_edits_extended(n, mask, seed):
     for a, (i, j) in enumerate(pr):
         for b, (k, l) in enumerate(pr):
             if a != b:
-                out.append(("two-bonds-toggled", i, j, k, l))
+                if a < b or (mask >> a & 1) != (mask >> b & 1):  # both orders only when one bond goes and one comes
+                    out.append(("two-bonds-toggled", i, j, k, l))
                 if (mask >> a & 1) != (mask >> b & 1):  # one deleted, one added
                     out.append(("two-bonds-toggled-queries-between", i, j, k, l))
     return out
@@ -929,6 +930,12 @@ def run(ctx):
         "matching: Unknown appears only in patterns (the text does not say what an Unknown target atom matches); one bond type on all bonds of "
         "both sides (Single everywhere; Double and Aromatic on the class representatives), since the text does not speak about bond-type compatibility",
         "the reference adjacency is read from the object's own bond list by atom identity and must equal the graph that was requested (else harness error)",
+        "attributes in matching (the property text only names elements and bonds; for everything else the docstrings are silent and the behaviour of the reviewed tree is taken as the rule): "
+        "pattern element Unknown matches any element, a target Unknown matches only a pattern Unknown; pattern isotope None / stereo Unknown match any, otherwise equal; "
+        "atom type, label, geometry, formal charge and spin never affect matching; pattern bond type Unknown matches any bond, Single/Double/Triple match a target bond type "
+        "whose value is not smaller, Aromatic/Amide match only themselves, NotConnected nothing; pattern bond stereo Unknown / label None match any, otherwise equal; f_order never "
+        "matters; pattern bond types for which _edge_match raises NotImplementedError by design (Dummy, Quadruple..Sextuple, Ligand, FractionalOrder, H_Donor, H_Acceptor) are not generated",
+        "get_substr_indices returns positions in the atom list of the object that was queried (Substructure / Conformer views, re-parented atoms included)",
         "history: the reference is the graph (atoms, bond list, elements) read back from the object after the edit; an edit that raises is counted in the notes and the sequence dropped",
     ]
 
@@ -986,14 +993,16 @@ def run(ctx):
         blocks.append(("class-representative targets =5 x class-representative patterns <=3 [match]", T_can[5], cat(P_can, range(1, 4)), "Single", ("match",)))
         mixed = tuple(("CNCNN" * 2)[seed % 5 : seed % 5 + 5])
         skel5 = [(5, m, mixed) for m in range(1 << 10)]
-        blocks.append(("all labelled 5-atom graphs with one mixed element assignment x class-representative patterns <=3 [match]", skel5, cat(P_can, range(1, 4)), "Single", ("match",)))
-        blocks.append(("class-representative targets <=5 x class-representative patterns <=3 [get_substr_indices]", can_all_T, cat(P_can, range(1, 4)), "Single", ("get_substr_indices",)))
+        # (quick budget) labelled 5-atom targets meet the class representatives without the Unknown wildcard; wildcard patterns meet them through the class-representative block above
+        blocks.append(("all labelled 5-atom graphs with one mixed element assignment x class-representative patterns <=3 without Unknown [match]", skel5, [g for g in cat(P_can, range(1, 4)) if "X" not in g[2]], "Single", ("match",)))
+        # get_substr_indices: every labelling of every pattern runs in its own block (run_labelled_gsi_part) and over views (part V)
+        blocks.append(("class-representative targets <=4 + every 4th of =5 x class-representative patterns <=3 [get_substr_indices]", cat(T_can, range(1, 5)) + T_can[5][seed % 4 :: 4], cat(P_can, range(1, 4)), "Single", ("get_substr_indices",)))
         blocks.append(("class-representative targets <=4 x class-representative patterns <=3 [ConformerEnsemble.get_substr_indices]", cat(T_can, range(1, 5)), cat(P_can, range(1, 4)), "Single", ("ens.get_substr_indices",)))
         dbl_T = cat(T_can, range(1, 4))
     for bt in ("Double", "Aromatic"):
         blocks.append((f"class-representative targets <={dbl_T[-1][0]} x class-representative patterns <=3 [all three entry points, bonds={bt}]", dbl_T, cat(P_can, range(1, 4)), bt, ("match", "get_substr_indices", "ens.get_substr_indices")))
 
-    if only.startswith("G"):
+    if only.startswith("G") or only.startswith("H"):
         blocks = blocks[-1:]
     elif only.startswith("M:"):
         blocks = [b for b in blocks if only[2:] in b[0]]
@@ -1041,7 +1050,7 @@ def run(ctx):
         mh += [{"targets": T_can[5][i::16], "patterns": cat(P_can, range(1, 3)), "bt": "Single", "ks": ks} for i in range(16)]
     else:
         mh = [{"targets": cat(T_can, range(1, 4))[i::4], "patterns": hP, "bt": "Single", "ks": ks} for i in range(4)]
-        mh += [{"targets": T_can[4][i::4], "patterns": cat(P_can, range(1, 3)), "bt": "Single", "ks": ks} for i in range(4)]
+        mh += [{"targets": T_can[4][seed % 2 :: 2][i::4], "patterns": cat(P_can, range(1, 3)), "bt": "Single", "ks": ks} for i in range(4)]
     mh.append({"targets": cat(T_can, range(1, 4)), "patterns": cat(P_can, range(1, 3)), "bt": "Aromatic", "ks": ks})
     mh += [{"own": True, "patterns": P_lab[3][i::4], "bt": "Single", "ks": ks} for i in range(4)]
     if not only or only.startswith("H"):
@@ -1056,6 +1065,15 @@ def run(ctx):
     )
     ctx.bound["H_match_edits"] = list(MATCH_EDITS)
     conseq = list(CONSEQUENTIAL) + [(f"{d}:history[{e}]", f"{u}:history[{e}]") for d, u in CONSEQUENTIAL for e in MATCH_EDITS]
+    # ---- part A (attributes on targets and patterns independently) and part V (which atom list an index refers to)
+    from mc.props import c15_attr
+
+    if not only:
+        run_forked(ctx, agg, [(f"attributes part {i}", c15_attr.attr_job, {"seed": seed, "part": i, "nparts": 8}) for i in range(8)], nproc, 800)
+        run_forked(ctx, agg, [("views", c15_attr.view_job, {"seed": seed, "thorough": thorough})], nproc, 800)
+    ctx.bound["A_attributes"] = "atom: element (incl. Unknown on either side), isotope, stereo, atype (all members), label, geom (all members), formal_charge, formal_spin; bond: btype (all members on the target x 7 implemented pattern types), stereo, label, f_order; one attribute at a time, on the first atom/bond and on all, target and pattern independently; 3 base pairs; 4 entry points"
+    ctx.bound["V_queried_objects"] = "Molecule, Substructure.heavy, Substructure(unordered index lists), Conformer, ConformerEnsemble, objects whose atoms were put into a later container, containers built from atoms of an earlier one, patterns built from the target's own atoms; 3 parents with interleaved hydrogens x 6 patterns"
+
     from mc.core import load_known
 
     agg.emit(ctx, consequential=conseq, known=set(load_known(ctx.pid)), depends=DEPENDS)
@@ -1075,7 +1093,11 @@ def run(ctx):
 
 def replay(ctx, case):
     agg = Agg()
-    if case["kind"] == "graph-history":
+    if case["kind"] in ("attr", "view"):
+        from mc.props import c15_attr
+
+        (c15_attr.replay_attr if case["kind"] == "attr" else c15_attr.replay_view)(ctx, agg, case)
+    elif case["kind"] == "graph-history":
         graph_history_case(ctx, agg, case["cls"], case["n"], case["mask"], tuple(case["edit"]), case["seed"])
     elif case["kind"] == "match-history":
         tn, tm, tc = case["target"]
